@@ -388,6 +388,14 @@ fn boundary_probes(ctx: &Ctx, vm: &mut VM) {
     for n in ["0", "3", "4", "0x10", "0x21", "0x20", "255", "256"] {
         progs.push(format!("start: int {}\n", n));
     }
+    // data definitions of every kind placed so that they end just below, reach exactly, straddle or start at the end of
+    // the 1 MiB address space (the last segments overlap it), and arrays that fill a segment: accepted => loadable
+    for (seg, lead) in [(0xFFFFu32, 0u32), (0xFFFF, 1), (0xFFFF, 13), (0xFFFF, 14), (0xFFFF, 15), (0xFFFF, 16), (0xFFF0, 250), (0xF800, 32760), (0xF001, 65500), (0xF000, 65530)] {
+        for def in ["db 7", "dw 0x1234", "db [5]", "db [7 , 32]", "db [0 , 300]", "dw [3]", "dw [0xBEEF , 17]", "dw [600]", "db \"top of memory!\"", "dw \"wide string\"", "db [65535]", "dw [32767]", "dw [1 , 32767]", "db [9 , 65535]"] {
+            let lead_s = if lead == 0 { String::new() } else { format!("db [{}]\n", lead) };
+            progs.push(format!("set {}\n{}x_q: {}\ny_q: db 1\nstart: mov ax, offset y_q\n", seg, lead_s, def));
+        }
+    }
     // instructions that jump to their own line and still terminate; a call in tail position (its return address is the
     // procedure's own implied ret)
     progs.push("start: mov cx, 3\nspin: loop spin\nprint reg\n".to_string());
